@@ -24,7 +24,7 @@ META = {
 def obligations(tier):
     return [
         JOB("format_is_canonical_truncated", M, "job_format", 300, functions=F[:1], stubs=STUB_NOTES,
-            bounds="years 1..9999, all field values, all 10^6 microsecond values (symbolic digits), naive/UTC-aware, 3x2 precision settings"),
+            bounds="years 1..9999, all field values, all 10^6 microsecond values (symbolic digits), naive / pytz.utc / other zero-offset tzinfo, 3x2 precision settings"),
         JOB("parse_format_fixed_point", M, "job_parse_format", 900, functions=F, stubs=STUB_NOTES,
             bounds="every canonical text with no fraction or 0..8 (quick) / 0..9 (thorough) fraction digits, symbolic digits and fields, 3x2 settings"),
         JOB("timestamp_property_clean", M, "job_property_clean", 600, functions=["stix2.properties.TimestampProperty.clean"] + F[:2], stubs=STUB_NOTES,
